@@ -63,6 +63,23 @@ reg(
     "DESIGN.md section 4, C10",
 )
 
+reg(
+    "C15",
+    "model_checking",
+    "Breadth-first enumeration of all sequences of public-API events (heterogeneous job pool x {fresh objects, reused "
+    "settings dict, reused dict + driver}) up to the stated depth, each sequence in its own freshly forked process "
+    "(the event history is the state; nothing is merged), followed by a probe event compared with the same event run "
+    "as the first act of a fresh process (bitwise / 1e-12; gradients 1e-9); forward and backward passes of "
+    "differentiable jobs are separate events and all interleavings of 2 (quick) and 3 (thorough) jobs are "
+    "enumerated; identical call repeated in-process must be bitwise identical; intra-op thread counts 2..16.",
+    "Fresh process = forked from a parent that imported torch+seqm and executed nothing. Depth 1 over the full "
+    "33-event alphabet, depth 2 (3 in thorough) over the stateful sub-alphabet. A reused driver meeting elements "
+    "outside the element list it was built with is refused loudly by the package and counted as rejected. "
+    "Concurrent Python callers are outside the statement.",
+    "stateless exploration of all operation sequences up to a depth on the real API, one fresh process per sequence, differential oracle against the fresh-process twin",
+    "DESIGN.md section 4, C15",
+)
+
 ALL = [f"C{i:02d}" for i in range(1, 21)]
 
 
